@@ -552,7 +552,7 @@ def run_families(chk, fams, tie):
             ops = []
             for i, o in enumerate(f.ops):
                 if i >= f.probe_from and o[0] in "qax":
-                    flags = set() if d[i] == "clean" else set(d[i].split("+"))
+                    flags = set(d[i].split("+")) - {"clean", "thm"}
                     if not flags <= allowed:
                         chk.count("dropped-probe:" + f.mode)
                         continue
@@ -566,10 +566,12 @@ def run_families(chk, fams, tie):
     model = C.run_driver("C09", lines)
     spec = C.run_driver("C09", [l.replace("types fam ", "types sfam ", 1) for l in lines])
     diag = C.run_driver("C09", [l.replace("types fam ", "types dfam ", 1) for l in lines])
+    cover = C.run_driver("C09", [l.replace("types fam ", "types cfam ", 1) for l in lines])
     P_ops, P_impl, P_model, P_spec = [], [], [], []
     info = {}
     for n, f in enumerate(fams):
         a, b, c, d = impl[n].split(";"), model[n].split(";"), spec[n].split(";"), diag[n].split(";")
+        cv = cover[n].split(";")
         if not (len(a) == len(b) == len(c) == len(f.ops)):
             raise RuntimeError("family %d: answer counts differ impl=%d model=%d spec=%d ops=%d: %s" % (
                 n, len(a), len(b), len(c), len(f.ops), impl[n][:300]))
@@ -585,7 +587,13 @@ def run_families(chk, fams, tie):
             P_model.append(b[i])
             # type strings are not part of the specification: the model is the oracle there
             P_spec.append(b[i] if o[0] == "s" else c[i])
+            covered = cv[i] == "thm"
             info[key] = (f, n, i, d[i], b[i], stale)
+            if o[0] in "qa":
+                chk.count("theorem-covers:" + ("yes" if covered else "no"))
+                if covered and b[i] != c[i]:
+                    # methodset_correct is PROVED for these probes: a disagreement means the driver is broken
+                    raise RuntimeError("model and spec disagree on a probe covered by methodset_correct: %s of %s" % (o, lines[n][:300]))
 
     def signature(op, im, sp):
         f, n, i, dg, mo, stale = info[op]
